@@ -29,6 +29,8 @@ def main():
     dirs = sorted(glob.glob(os.path.join(V, "selftest", "mutants", "*"))) + sorted(glob.glob(os.path.join(V, "seeded", "*")))
     bad = 0
     for d in dirs:
+        if not os.path.isdir(d) or not os.path.exists(os.path.join(d, "meta.json")):
+            continue
         name = os.path.basename(d)
         if only and not any(o in name for o in only):
             continue
@@ -38,7 +40,7 @@ def main():
         expect = meta.get("expect", "violation")
         for p in props:
             res, out = run_one(patch, p, expect)
-            print(f"{res:14s} {name} prop={p} expect={expect}")
+            print(f"{res:14s} {name} prop={p} expect={expect}", flush=True)
             if res != "OK":
                 bad += 1
                 print("    " + "\n    ".join(out.splitlines()[-12:]))
